@@ -440,6 +440,13 @@ CORPUS = [
        fixed_data={"u": np.array([0, 1, 4000000000, 4294967295], dtype=np.uint32),
                    "i": np.array([-1, -2000000000, 2000000000, 7], dtype=I32),
                    "b": np.array([-128, 127, -1, 5], dtype=np.int8), "w": np.array([255, 0, 200, 3], dtype=np.uint8)}),
+    _P("narrowing_casts", [ph("u", (4,), np.uint32), ph("i", (4,), I32), ph("b", (4,), np.int8)],
+       # narrowing casts of out-of-range data, consumed by something that casts again (a cast of a cast is not one cast)
+       lambda L, u, i, b: {"nar8": L.astype(L.astype(i, np.int8), I64), "nar8p": L.astype(i, np.int8) + u,
+                           "naru8": L.astype(i, np.uint8) * 2.5, "nar16": L.astype(L.astype(u, np.int16), I32) - b},
+       tags=("intarith",),
+       fixed_data={"u": np.array([0, 1, 4000000000, 4294967295], dtype=np.uint32),
+                   "i": np.array([-1, -2000000000, 2000000000, 7], dtype=I32), "b": np.array([-128, 127, -1, 5], dtype=np.int8)}),
     _P("neg_abs_pow", [ph("x", (3,)), ph("m", (3,), I64)],
        lambda L, x, m: {"a": -x, "b": abs(x) ** 0.5, "c": (-m) ** 2, "e": x ** 2 - m}),
 ]
